@@ -45,6 +45,7 @@ struct Ctx {
 	vtables: Vec<Value>,
 	local_prefix: String,
 	notes: Vec<String>,
+	skip: Vec<String>,
 }
 
 fn int_bits(t: &IntTy) -> u64 {
@@ -321,7 +322,14 @@ impl Ctx {
 		let mut entries = vec![];
 		if let Some(tr) = tr {
 			let tref = tr.skip_binder().with_self_ty(ty);
-			for e in tref.vtable_entries() {
+			let ents = match std::panic::catch_unwind(std::panic::AssertUnwindSafe(|| tref.vtable_entries())) {
+				Ok(e) => e,
+				Err(_) => {
+					self.notes.push(format!("vtable_entries panicked for {}", key));
+					vec![]
+				}
+			};
+			for e in ents {
 				match e {
 					VtblEntry::Method(inst) => entries.push(json!(self.fn_id(inst))),
 					VtblEntry::MetadataDropInPlace => {
@@ -679,7 +687,8 @@ impl Ctx {
 			InstanceKind::Shim => "shim",
 		};
 		let is_closure = matches!(inst.ty().kind(), TyKind::RigidTy(RigidTy::Closure(..)));
-		let body = if matches!(inst.kind, InstanceKind::Virtual { .. }) { None } else { inst.body() };
+		let skipped = self.skip.iter().any(|p| name.contains(p.as_str()));
+		let body = if skipped || matches!(inst.kind, InstanceKind::Virtual { .. }) { None } else { inst.body() };
 		let bj = match &body {
 			Some(b) => {
 				let locals: Vec<usize> = b.locals().iter().map(|l| self.ty_id(l.ty)).collect();
@@ -692,7 +701,7 @@ impl Ctx {
 		self.fns[id] = json!({
 			"id": id, "name": name, "def_name": inst.def.name(), "kind": kind,
 			"intrinsic": inst.intrinsic_name(), "is_closure": is_closure, "local": local,
-			"foreign": inst.is_foreign_item(), "body": bj,
+			"foreign": inst.is_foreign_item(), "body": bj, "skipped": skipped,
 		});
 	}
 }
@@ -716,6 +725,7 @@ fn dump() -> ControlFlow<()> {
 		vtables: vec![],
 		local_prefix: format!("{}::", krate.name),
 		notes: vec![],
+		skip: std::env::var("MIRDUMP_SKIP").unwrap_or_default().split(',').filter(|s| !s.is_empty()).map(|s| s.to_string()).collect(),
 	};
 	let mut entries = serde_json::Map::new();
 	for item in rustc_public::all_local_items() {
